@@ -301,13 +301,18 @@ SPECIAL_PROGRAMS = [
     "macro only() {\n    o();\n}\n",
     "// nothing here\n",
     "",
+    # regression stimuli of three repaired decompiler defects (known_findings.json: bb60630, f85ffed, 5613385)
+    "def 0 {\n    while ($A < 3) {\n        b0();\n    }\n    hold;\n}\n",
+    "def 0 {\n    a();\n    end;\n}\ndef 1 for actor ACTOR_X {\n    for (i(); $A < 3; n();) {\n        b0();\n    }\n    end;\n}\n",
+    "def 0 {\n    dungeon_mode(3) = DMODE_OPEN;\n    dungeon_mode(4) = 2;\n    switch (dungeon_mode(3)) {\n        case DMODE_OPEN:\n            a();\n            break;\n        case DMODE_REQUEST:\n            b();\n            break;\n        case OPEN_AND_REQUEST:\n            c();\n            break;\n    }\n    end;\n}\n",
+    "coro CORO_T {\n    forever {\n        while ($S <= 42) {\n            while ($A & 3) {\n                x(1);\n                y(2);\n            }\n        }\n        z();\n        if ($A < $B) {\n            break_loop;\n        }\n    }\n    end;\n}\n",
     # first / last op of the document as jump targets
     "def 0 {\n    @top;\n    a();\n    if ($A == 1) {\n        jump @top;\n    }\n    @bottom;\n    end;\n}\ndef 1 {\n    jump @bottom;\n}\n",
 ]
 
 
 def template_program(rng: random.Random) -> str:
-    if rng.random() < 0.15:
+    if rng.random() < 0.2:
         return rng.choice(SPECIAL_PROGRAMS)
     names = sorted(TEMPLATES)
     k = rng.choice([1, 1, 2, 2, 3])
